@@ -1,6 +1,7 @@
 import Proofs.Lemmas.ReqSolo
 import Proofs.Lemmas.ReqSite
 import Proofs.Lemmas.ReqLimit
+import Proofs.Lemmas.ReqReg
 import Generated.C11Superglobals
 /-!
 # C11 — concurrent HTTP requests do not interfere: a response depends on its request
@@ -47,6 +48,16 @@ the isolation when every refusal is decided on the request's own frames, `C11_sh
 the leak when one is decided on the sum, and the regenerated fact `depthGuards` (every place that
 enters a VM counter, its limit, what the refusal under it is nested in) decides which one the
 analysed tree has (`C11_depth_guards_generated`).
+
+Registries are the fourth half: per-request state the server keeps for the whole process in a
+map (`requestFormatterSlots`: the `onFormat` envelope of the request; `requestAttrBags`: its
+`$r->attribute()` bag), stored, looked up and deleted under a key.  `Model.ReqReg` has the key
+function as a parameter: `C11_registry_isolation` is the isolation of a request whose key no other
+scheduled request uses (whatever those do: attach, detach, finish), `C11_registry_key_reuse` says a
+key may be recycled once its holder has detached, `C11_shared_registry_key_leaks` is the lost
+envelope / foreign attribute when two requests in flight share a key, and the regenerated fact
+`registries` (every use of every package-level map of `std/net/http` with its key expression)
+decides which one the analysed tree has (`C11_registry_keys_generated`).
 
 Trusted, not proved: `net/http` hands every request its own `*http.Request`; the Go memory
 model (steps are atomic in the model; the real caches are plain pointers — the parallel-load
@@ -431,6 +442,153 @@ theorem C11_depth_guards_generated :
 
 end Limit
 
+section Registry
+open Model.ReqReg Proofs.ReqReg
+
+/-- the other requests of the schedule store, load and delete under keys other than `r`'s -/
+def KeyApart (w : Model.ReqReg.World) (r : Rid) (sched : List Rid) : Prop :=
+  ∀ a ∈ sched, a ≠ r → w.key a ≠ w.key r
+
+/-- **Projection** for registries: if no other request of the schedule uses `r`'s key, then after
+*any* interleaving (any number of requests attaching, looking up, detaching, finishing — complete
+or not) request `r` and the entries under its key are where its own turns alone leave them. -/
+theorem C11_registry_isolation_prefix (w : Model.ReqReg.World) (r : Rid) (sched : List Rid)
+    (hk : KeyApart w r sched) :
+    (Model.ReqReg.run w (Model.ReqReg.init w) sched).req r
+        = (Model.ReqReg.run w (Model.ReqReg.init w) (List.replicate (sched.count r) r)).req r ∧
+    Model.ReqReg.view w (Model.ReqReg.run w (Model.ReqReg.init w) sched) r
+        = Model.ReqReg.view w (Model.ReqReg.run w (Model.ReqReg.init w) (List.replicate (sched.count r) r)) r := by
+  have h := Proofs.ReqReg.sim_run w r sched (Model.ReqReg.init w) (Model.ReqReg.init w) rfl hk
+  exact ⟨congrArg Prod.fst h, congrArg Prod.snd h⟩
+
+/-- **(i) Isolation of registry state**: under every schedule that lets it finish and in which the
+other requests use other keys, every lookup of the request returns what the request itself
+attached (and has not detached): its response is its solo response, which is the specification's
+function of its own program.  No assumption on what the other requests do. -/
+theorem C11_registry_isolation (w : Model.ReqReg.World) (r : Rid) (sched : List Rid)
+    (hk : KeyApart w r sched) (hdone : (w.prog r).length ≤ sched.count r) :
+    Model.ReqReg.response (Model.ReqReg.run w (Model.ReqReg.init w) sched) r = Model.ReqReg.soloResponse w r ∧
+    Model.ReqReg.soloResponse w r = Spec.ReqReg.respond (w.prog r) := by
+  constructor
+  · unfold Model.ReqReg.response Model.ReqReg.soloResponse Model.ReqReg.solo Model.ReqReg.response
+    rw [(C11_registry_isolation_prefix w r sched hk).1]
+    have := congrArg Prod.fst (Proofs.ReqReg.run_saturate w r (sched.count r) (Model.ReqReg.init w)
+      (by simpa [Model.ReqReg.init] using hdone))
+    simp only [Proofs.ReqReg.proj] at this
+    rw [this]
+    rfl
+  · unfold Model.ReqReg.soloResponse Model.ReqReg.solo Model.ReqReg.response Spec.ReqReg.respond
+    exact (Proofs.ReqReg.solo_spec w r (w.prog r) (Model.ReqReg.init w) [] rfl (fun _ => rfl)).1
+
+/-- with an **injective key function** (the `*http.Request` pointer) every request is isolated under
+every schedule, any number of requests in flight -/
+theorem C11_registry_isolation_injective (w : Model.ReqReg.World) (hinj : ∀ a b, w.key a = w.key b → a = b)
+    (sched : List Rid) (r : Rid) (hdone : (w.prog r).length ≤ sched.count r) :
+    Model.ReqReg.response (Model.ReqReg.run w (Model.ReqReg.init w) sched) r = Spec.ReqReg.respond (w.prog r) := by
+  have h := C11_registry_isolation w r sched (fun a _ hne hk => hne (hinj a r hk)) hdone
+  rw [h.1, h.2]
+
+/-- **A key may be recycled once its holder has detached**: request `r₁` finishes during `s₁` and
+leaves nothing attached (`Spec.ReqReg.leaves = []`: every layer ends with the detach); request `r₂`,
+which has the *same* key (an address reused for a later `*http.Request`), runs during `s₂`; the other
+requests of both phases use other keys.  Then `r₂` is answered as if it were alone. -/
+theorem C11_registry_key_reuse (w : Model.ReqReg.World) (r₁ r₂ : Rid) (s₁ s₂ : List Rid)
+    (h2 : r₂ ∉ s₁) (h1 : r₁ ∉ s₂) (hk₁ : KeyApart w r₁ s₁) (hk₂ : ∀ a ∈ s₂, a ≠ r₂ → w.key a ≠ w.key r₂)
+    (hsame : w.key r₁ = w.key r₂)
+    (hdone₁ : (w.prog r₁).length ≤ s₁.count r₁) (hclean : Spec.ReqReg.leaves (w.prog r₁) = [])
+    (hdone₂ : (w.prog r₂).length ≤ s₂.count r₂) :
+    Model.ReqReg.response (Model.ReqReg.run w (Model.ReqReg.init w) (s₁ ++ s₂)) r₂ = Spec.ReqReg.respond (w.prog r₂) := by
+  have _ := h1
+  -- after the first phase nothing is attached under the shared key
+  have hv1 : ∀ g, Model.ReqReg.view w (Model.ReqReg.run w (Model.ReqReg.init w) s₁) r₁ g = none := by
+    intro g
+    rw [(C11_registry_isolation_prefix w r₁ s₁ hk₁).2]
+    have hsat := congrArg Prod.snd (Proofs.ReqReg.run_saturate w r₁ (s₁.count r₁) (Model.ReqReg.init w)
+      (by simpa [Model.ReqReg.init] using hdone₁))
+    simp only [Proofs.ReqReg.proj] at hsat
+    rw [hsat]
+    have hs := (Proofs.ReqReg.solo_spec w r₁ (w.prog r₁) (Model.ReqReg.init w) [] rfl (fun _ => rfl)).2 g
+    have hl : (Spec.ReqReg.go (w.prog r₁) [] [] []).2 = [] := hclean
+    simp only [Model.ReqReg.init] at hs ⊢
+    rw [hs, hl]
+    rfl
+  have hproj : Proofs.ReqReg.proj w (Model.ReqReg.run w (Model.ReqReg.init w) s₁) r₂
+      = Proofs.ReqReg.proj w (Model.ReqReg.init w) r₂ := by
+    unfold Proofs.ReqReg.proj
+    rw [Proofs.ReqReg.run_req_frame w r₂ s₁ _ h2]
+    congr 1
+    funext g
+    have := hv1 g
+    simp only [Model.ReqReg.view, hsame] at this
+    show (Model.ReqReg.run w (Model.ReqReg.init w) s₁).regs g (w.key r₂) = (Model.ReqReg.init w).regs g (w.key r₂)
+    rw [this]
+    rfl
+  rw [Proofs.ReqReg.run_append]
+  have hsim := congrArg Prod.fst (Proofs.ReqReg.sim_run w r₂ s₂ _ _ hproj hk₂)
+  simp only [Proofs.ReqReg.proj] at hsim
+  unfold Model.ReqReg.response
+  rw [hsim]
+  have hsat := congrArg Prod.fst (Proofs.ReqReg.run_saturate w r₂ (s₂.count r₂) (Model.ReqReg.init w)
+    (by simpa [Model.ReqReg.init] using hdone₂))
+  simp only [Proofs.ReqReg.proj] at hsat
+  rw [hsat]
+  exact (Proofs.ReqReg.solo_spec w r₂ (w.prog r₂) (Model.ReqReg.init w) [] rfl (fun _ => rfl)).1
+
+/-- registry 0 = the formatter slots (value 1 = the server's `onFormat` slot), registry 1 = one
+attribute of the bag.  Request 0: the formatter middleware attaches, a closure middleware sets
+the attribute and parks, then the handler's `beginResponse` looks the slot up, the handler reads
+the attribute, answers, detaches.  Request 1: the same without parking. -/
+def regWorld (key : Rid → Model.ReqReg.Key) : Model.ReqReg.World where
+  key := key
+  prog := fun r =>
+    if r = 0 then [.attach 0 1, .attach 1 7, .gate, .lookup 0, .lookup 1, .write, .detach 0, .detach 1]
+    else [.attach 0 1, .attach 1 8, .lookup 0, .lookup 1, .write, .detach 0, .detach 1]
+
+/-- request 0 up to its gate, request 1 to completion, request 0 to its end -/
+def regSched : List Rid := [0, 0, 0] ++ [1, 1, 1, 1, 1, 1, 1] ++ [0, 0, 0, 0, 0]
+
+/-- **(ii) Negation witness** (the seeded class of change, `requestFormatterSlots.Store(r.Context(), slot)`):
+with a key that two requests in flight share, request 0 — parked between the attach and its final
+lookup while request 1 finishes and detaches — finds neither the server's envelope nor its
+attribute (`[none, none]`); alone it finds both (`[some 1, some 7]`); keyed by its identity it finds
+both under the same schedule.  Released before request 1 detaches, it reads request 1's attribute. -/
+theorem C11_shared_registry_key_leaks :
+    Model.ReqReg.response (Model.ReqReg.run (regWorld fun _ => 0) (Model.ReqReg.init (regWorld fun _ => 0)) regSched) 0 = [none, none] ∧
+    Model.ReqReg.soloResponse (regWorld fun _ => 0) 0 = [some 1, some 7] ∧
+    Model.ReqReg.response (Model.ReqReg.run (regWorld id) (Model.ReqReg.init (regWorld id)) regSched) 0 = [some 1, some 7] ∧
+    Model.ReqReg.response (Model.ReqReg.run (regWorld fun _ => 0) (Model.ReqReg.init (regWorld fun _ => 0))
+      ([0, 0, 0] ++ [1, 1] ++ [0, 0, 0, 0, 0] ++ [1, 1, 1, 1, 1])) 0 = [some 1, some 8] := by
+  decide
+
+/-- the full statement fails for a key that does not identify the request -/
+theorem C11_registry_isolation_counterexample :
+    ¬ (∀ (w : Model.ReqReg.World) (r : Rid) (sched : List Rid), (w.prog r).length ≤ sched.count r →
+        Model.ReqReg.response (Model.ReqReg.run w (Model.ReqReg.init w) sched) r = Model.ReqReg.soloResponse w r) := by
+  intro h
+  have := h (regWorld fun _ => 0) 0 regSched (by decide)
+  revert this
+  decide
+
+/-- **Obligation + instance for the analysed tree**: every use of every package-level map of
+`std/net/http` (regenerated every run: Store / Load / LoadOrStore / Delete sites, and every call
+of a function that keys a registry by its parameter) has the `*http.Request` itself as the key,
+no site walks or clears a whole registry, and every registry is deleted from; hence the key
+function of the tree is the request's identity and every request finds, under every schedule
+and any number of requests in flight, exactly what it attached itself. -/
+theorem C11_registry_keys_generated :
+    Generated.C11Superglobals.facts.registryViolations = [] ∧
+    ∀ (prog : Rid → List Model.ReqReg.Step) (r : Rid) (sched : List Rid), (prog r).length ≤ sched.count r →
+      let w : Model.ReqReg.World := { key := keyOf Generated.C11Superglobals.facts, prog := prog }
+      Model.ReqReg.response (Model.ReqReg.run w (Model.ReqReg.init w) sched) r = Spec.ReqReg.respond (prog r) := by
+  have hv : Generated.C11Superglobals.facts.registryViolations = [] := by decide
+  refine ⟨hv, ?_⟩
+  intro prog r sched hdone w
+  apply C11_registry_isolation_injective w _ sched r hdone
+  intro a b hab
+  simpa [w, keyOf, hv] using hab
+
+end Registry
+
 /-! ## Non-vacuity -/
 
 /-- a world with per-request storage, three requests, each reading `$_GET`, `$_REQUEST`, writing `$_SESSION` -/
@@ -481,6 +639,30 @@ example : Generated.C11Superglobals.facts.nodeWrites.any (fun w => w.parserBuilt
     Generated.C11Superglobals.facts.nodeWrites.any (fun w => !w.parserBuilt && w.typ == "FuncYieldStackState") = true := by decide
 
 end C11
+
+/-- `C11_registry_isolation` applies: three requests keyed by identity, all attached before any looks up,
+finishing in reverse order; `KeyApart` holds, the programs finish, and the observations are not trivial -/
+example : C11.KeyApart (C11.regWorld id) 0 ([0, 0, 0] ++ [1, 1, 1, 1, 1, 1, 1] ++ [0, 0, 0, 0, 0]) ∧
+    ((C11.regWorld id).prog 0).length ≤ C11.regSched.count 0 ∧
+    Spec.ReqReg.respond ((C11.regWorld id).prog 0) = [some 1, some 7] ∧
+    Spec.ReqReg.leaves ((C11.regWorld id).prog 0) = [] := by
+  refine ⟨?_, by decide, by decide, by decide⟩
+  intro a _ hne hk
+  exact hne hk
+
+/-- `C11_registry_key_reuse` applies: request 1 reuses request 0's key after request 0 has finished and detached -/
+example : Model.ReqReg.response (Model.ReqReg.run (C11.regWorld fun _ => 0) (Model.ReqReg.init (C11.regWorld fun _ => 0))
+      ([0, 0, 0, 0, 0, 0, 0, 0] ++ [1, 1, 1, 1, 1, 1, 1])) 1 = [some 1, some 8] :=
+  C11.C11_registry_key_reuse (C11.regWorld fun _ => 0) 0 1 [0, 0, 0, 0, 0, 0, 0, 0] [1, 1, 1, 1, 1, 1, 1]
+    (by decide) (by decide) (fun a ha hne => by simp at ha; exact absurd ha hne)
+    (fun a ha hne => by simp at ha; exact absurd ha hne) rfl (by decide) (by decide) (by decide)
+
+/-- the registry facts are not empty: both registries are stored to, loaded from and deleted from, and the
+callers of the helper functions are listed -/
+example : Generated.C11Superglobals.facts.registries.any (fun s => s.var == "requestFormatterSlots" && s.op == "Store") = true ∧
+    Generated.C11Superglobals.facts.registries.any (fun s => s.var == "requestAttrBags" && s.op == "Delete") = true ∧
+    Generated.C11Superglobals.facts.registries.any (fun s => s.op == "call" && s.fn == "Handler.ServeHTTP→detachRequestAttrs") = true ∧
+    Generated.C11Superglobals.facts.registryKeysIdentity = true := by decide
 
 /-- `GoodGuards` is satisfiable by a table that really guards, the witness world's requests exist
 and finish under the schedule, and the analysed tree has a guard that decides on own frames -/
